@@ -6,7 +6,8 @@ cd "$(dirname "$0")"
 export CARGO_NET_OFFLINE=true
 mkdir -p .work evidence replays
 python3 tools/translate.py || echo "translator reported a problem (the checks will report it per property)"
-(cd lean && lake build EraVerif vmodel EraVerif.Audit.Tool 2>&1 | tail -n 15) || echo "lake build failed (the checks will report it per property)"
+EXES=$(grep -o 'name = "vmodel_[a-z0-9_]*"' lean/lakefile.toml | cut -d\" -f2 | tr "\n" " ")
+(cd lean && lake build EraVerif EraVerif.Audit.Tool $EXES 2>&1 | tail -n 15) || echo "lake build failed (the checks will report it per property)"
 [ -f harness/Cargo.lock ] || cp /repo/node/Cargo.lock harness/Cargo.lock
 (cd harness && cargo build --offline 2>&1 | tail -n 5) || echo "cargo build failed (the checks will report it per property)"
 echo "setup done"
